@@ -835,6 +835,23 @@ func (m *Monitors) AtEnd() {
 	}
 	m.timedEnd()
 	m.restoreEnd()
+	// C10: NewRaft must return
+	if w.endWhy == "quiescent" {
+		for _, n := range w.nodes {
+			if n.up && !n.booted {
+				site := "?"
+				for _, s := range w.sched.Live(func(g int) bool { return g == n.group() }) {
+					if strings.HasPrefix(s, "boot-") {
+						site = s[strings.Index(s, "@")+1:]
+						if i := strings.Index(site, "#"); i > 0 {
+							site = site[:i]
+						}
+					}
+				}
+				m.fail("C10", "newraft-never-returns@"+site, "NewRaft on n%d.%d never returned: the constructor is parked in %s and nothing can wake it", n.id, n.inc, site)
+			}
+		}
+	}
 	// C17: no client stuck for ever at a state where nothing can happen any more
 	{
 		for _, c := range w.calls {
